@@ -20,7 +20,8 @@ Definition expected_steps : list (string * string) := [
 
 Definition expected_global : list string := [
   "database.Write call sites: 3";
-  "direct database writes: []"
+  "direct database writes: []";
+  "batches / commits / writes on the engine database from pkg/engine or pkg/generator: []"
 ].
 
 Definition expected_delete_origin : list string := [
